@@ -84,3 +84,63 @@ func VerifC01_CLIRequest(h *zz.H) {
 	}
 	h.Trace("invocation", how, err == nil)
 }
+
+// VerifC01_ParseQuery: the query flag reaches the client library as its path elements, for every
+// delimiter: E elements of 1..B symbolic ASCII bytes (none of the query syntax characters, not
+// the delimiter), joined with a symbolic ASCII delimiter or with a concrete multi-byte one,
+// optionally with leading/trailing delimiters and with a keyed element whose key value contains
+// the delimiter.
+func VerifC01_ParseQuery(h *zz.H) {
+	E, B := h.Param("E", 2), h.Param("B", 2)
+	var delim string
+	multi := h.Range("delimiter_kind", 0, 2)
+	switch multi {
+	case 0:
+		delim = h.Bytes("delim", 1)
+		h.Assume(len(delim) == 1 && delim[0] != '[' && delim[0] != ']')
+	case 1:
+		delim = "·" // U+00B7, two bytes
+	default:
+		delim = "→" // U+2192, three bytes
+	}
+	n := h.Range("elements", 1, E)
+	var elems []string
+	query := ""
+	if h.Range("leading_delimiter", 0, 1) == 1 {
+		query = delim
+	}
+	for i := 0; i < n; i++ {
+		e := h.Bytes("elem", B)
+		h.Assume(e != "")
+		for k := 0; k < len(e); k++ {
+			h.Assume(e[k] != '[' && e[k] != ']')
+			if multi == 0 {
+				h.Assume(e[k] != delim[0])
+			}
+		}
+		if i == 0 && h.Param("KEYED", 1) == 1 && h.Range("keyed", 0, 1) == 1 {
+			// a key value may contain the delimiter: it is not a separator inside [...]
+			e = e + "[k=v" + delim + "w]"
+		}
+		elems = append(elems, e)
+		if i > 0 {
+			query += delim
+		}
+		query += e
+	}
+	if h.Range("trailing_delimiter", 0, 1) == 1 {
+		query += delim
+	}
+	got, err := parseQuery(query, delim)
+	h.Assert(err == nil, "C01: a well-formed query flag is accepted")
+	if err != nil {
+		return
+	}
+	ok := len(got) == len(elems)
+	if ok {
+		for i := range elems {
+			ok = zz.And(ok, got[i] == elems[i])
+		}
+	}
+	h.Assert(ok, "C01: the query flag reaches the client library as its path elements, whatever the delimiter")
+}
